@@ -369,8 +369,12 @@ func (r *Run) Finish() int {
 				have = int64(len(m))
 			}
 		}
-		if have < n {
-			r.inconcl = append(r.inconcl, fmt.Sprintf("minimum observation not met: %s=%d < %d", k, have, n))
+		// The stated numbers are what the workloads are sized for; a run is only called inconclusive when it stays
+		// below a fifth of that: how many cases end in which outcome depends on choices the properties leave to the
+		// code (which inputs it accepts, how it words and delivers refusals), and a run on such code is not a run that
+		// observed nothing.
+		if need := (n + 4) / 5; have < need {
+			r.inconcl = append(r.inconcl, fmt.Sprintf("minimum observation not met: %s=%d < %d (a fifth of the %d the workload is sized for)", k, have, need, n))
 		}
 	}
 	sort.Strings(r.inconcl)
